@@ -97,13 +97,13 @@ def cases(rng, tier):
                 continue
             yield dict(kind="field", mesh=gen_mesh(rng, tier, ndim, n), nvdim=rng.choice([1, 2, 3]), tier=tier,
                        sub=rng.getrandbits(32))
-    for _ in range(70 if quick else 700):
+    for _ in range(400 if quick else 2200):
         yield dict(kind="field", mesh=gen_mesh(rng, tier), nvdim=rng.choice([1, 1, 2, 3, 3, 4]), tier=tier,
                    sub=rng.getrandbits(32))
-    for _ in range(40 if quick else 400):
+    for _ in range(120 if quick else 900):
         yield dict(kind="float", mesh=gen_float_mesh(rng), nvdim=rng.choice([1, 2, 3, 4]), tier=tier,
                    sub=rng.getrandbits(32))
-    for _ in range(25 if quick else 150):
+    for _ in range(60 if quick else 300):
         yield dict(kind="bad", mesh=gen_mesh(rng, "quick", rng.choice([1, 1, 2, 3])), nvdim=rng.choice([1, 3]), tier=tier,
                    sub=rng.getrandbits(32))
 
@@ -339,7 +339,7 @@ def field_oracle(case, f, arr, mesh, rng, fail, exact):
             return
         last = np.take(C.array, -1, axis=ax)
         lastx = np.take(A, -1, axis=ax)
-        if not same(Id[d], obj(last) + lastx / 2 * cell[ax], absum * cell[ax]) and exact:
+        if not same(Id[d], obj(last) + lastx / 2 * cell[ax], absum * cell[ax]):
             fail(f"cumulative integral along '{d}': last entry + half the last cell x cell length != integrate('{d}')")
             return
     # 5. means = integral / integrated extent
